@@ -61,9 +61,10 @@ var (
 	hardBudget uint64 = ^uint64(0)
 	softHit    bool
 
-	runtimeErrs     int
-	runtimeErrSite  int32
-	runtimeErrFirst string
+	runtimeErrs      int
+	runtimeErrSite   int32
+	runtimeErrFirst  string
+	runtimeErrOrigin string
 )
 
 // BudgetExceeded is the panic value used to stop a run that exceeded the hard
@@ -86,7 +87,7 @@ func Reset(seed uint64) {
 	evHash, evCount = 1469598103934665603, 0
 	ticks, softHit = 0, false
 	softBudget, hardBudget = ^uint64(0), ^uint64(0)
-	runtimeErrs, runtimeErrSite, runtimeErrFirst = 0, 0, ""
+	runtimeErrs, runtimeErrSite, runtimeErrFirst, runtimeErrOrigin = 0, 0, "", ""
 	resetMapStats()
 	resetPoolStats()
 	resetSchedStats()
@@ -237,6 +238,7 @@ func Recovered(r interface{}, site int32) interface{} {
 		if runtimeErrs == 0 {
 			runtimeErrSite = site
 			runtimeErrFirst = re.Error()
+			runtimeErrOrigin = panicOrigin()
 		}
 		runtimeErrs++
 	}
@@ -246,8 +248,29 @@ func Recovered(r interface{}, site int32) interface{} {
 // RecoveredRuntimeErrors reports Go runtime faults seen at recover() sites.
 //
 //go:norace
-func RecoveredRuntimeErrors() (n int, firstSite int32, first string) {
-	return runtimeErrs, runtimeErrSite, runtimeErrFirst
+func RecoveredRuntimeErrors() (n int, firstSite int32, first string, origin string) {
+	return runtimeErrs, runtimeErrSite, runtimeErrFirst, runtimeErrOrigin
+}
+
+// panicOrigin returns the function in which the Go runtime fault being
+// recovered was raised: the first frame below the runtime's panic machinery.
+func panicOrigin() string {
+	pcs := make([]uintptr, 64)
+	n := runtime.Callers(2, pcs)
+	frames := runtime.CallersFrames(pcs[:n])
+	seenPanic := false
+	for {
+		f, more := frames.Next()
+		isRuntime := len(f.Function) > 8 && f.Function[:8] == "runtime."
+		if isRuntime {
+			seenPanic = true
+		} else if seenPanic {
+			return f.Function
+		}
+		if !more {
+			return "?"
+		}
+	}
 }
 
 func fatalf(format string, a ...interface{}) {
